@@ -161,11 +161,25 @@ def _find_boundary_emit(tr):
             "  find_boundary_from v_fn v_mult MAX_ITER v_init.\n"
             "Definition find_boundary (v_fn : num -> num) (v_init v_mult : num) : num :=\n"
             "  match find_boundary_opt v_fn v_init v_mult with Some b => b | None => nraise end.\n")
-AGGR["targets"].append({"raw": lambda tr: (
-    "(* Aggregates.with_zero_div: wraps every number in utils.Float/Int so that x/0 gives inf/nan instead of raising.\n"
-    "   On the number line of this model (no zero divisors under the theorems' hypotheses) it is the identity;\n"
-    "   the wrapper arithmetic itself is the subject of C18. *)\n"
-    "Definition agg_with_zero_div (v_self : (aggregates num)) : (aggregates num) := v_self.\n"),
+def _with_zero_div(tr):
+    """Aggregates.with_zero_div must wrap the count with Int and every mean / variance / covariance with numeric."""
+    from py2coq import Unsupported
+    d = tr.find_def("Aggregates.with_zero_div")
+    body = [n for n in d.body if not (isinstance(n, _ast.Expr) and isinstance(n.value, _ast.Constant))]
+    want = ("return Aggregates(count_=None if self.count_ is None else tea_tasting.utils.Int(self.count_), "
+            "mean_={k: tea_tasting.utils.numeric(v) for k, v in self.mean_.items()}, "
+            "var_={k: tea_tasting.utils.numeric(v) for k, v in self.var_.items()}, "
+            "cov_={k: tea_tasting.utils.numeric(v) for k, v in self.cov_.items()})")
+    if len(body) != 1 or _ast.unparse(body[0]) != want:
+        raise Unsupported("Aggregates.with_zero_div no longer wraps count_ / mean_ / var_ / cov_ with Int / numeric: "
+                          + " ".join(_ast.unparse(b) for b in body)[:300])
+    return ("(* Aggregates.with_zero_div: wraps every number in utils.Int / numeric (checked above on the source text).\n"
+            "   agg_wrap is the identity on the number lines R and Q (no zero divisors under those theorems' hypotheses)\n"
+            "   and the Plain -> Wrapped map in the exception semantics of lib/PreludeX.v (C18). *)\n"
+            "Definition agg_with_zero_div (v_self : (aggregates num)) : (aggregates num) := agg_wrap v_self.\n")
+
+
+AGGR["targets"].append({"raw": _with_zero_div,
     "func": ("Aggregates.with_zero_div", Func("agg_with_zero_div", [("self", AGG, None)], AGG, None, AGG))})
 
 SPECS["Mean"] = MEAN
@@ -523,6 +537,8 @@ DATASETS = {
     "targets": [{"raw": _datasets_emit}],
 }
 SPECS["Datasets"] = DATASETS
+
+X_INSTANCE = ("Aggr", "Mean")      # also instantiated over lib/PreludeX.v (exception semantics, C18)
 
 # instance-independent models (over lib/PyVal): (name, translator module, source file)
 PLAIN = [("Utils", "utils2coq", "utils.py"), ("ExperimentPairs", "exp2coq", "experiment.py"),
